@@ -3,4 +3,3 @@ import McpModel.Base.Proto
 import McpModel.EventStore.Props
 import McpModel.EventStore.Driver
 import McpModel.Sessions.Props
-import McpModel.Sessions.Driver
